@@ -12,6 +12,7 @@ import (
 	"fmt"
 	"os"
 	"os/exec"
+	"os/signal"
 	"path/filepath"
 	"regexp"
 	"sort"
@@ -193,7 +194,12 @@ type agg struct {
 	phaseInfo   []map[string]interface{}
 }
 
+// once this many unlisted violations are collected the verdict is decided and
+// no further chunks are scheduled
+const failFastViolations = 60
+
 type runCtx struct {
+	findings   []fw.Finding
 	prop, tier string
 	seed       int64
 	tmp        string
@@ -217,6 +223,8 @@ func run(prop, tier string) int {
 	rc := &runCtx{prop: prop, tier: tier, seed: seed, tmp: tmp, bins: map[bool]string{},
 		a: &agg{tags: map[string]int{}, extra: map[string]int{}, hashes: map[uint64]struct{}{}}}
 
+	rc.findings, _ = fw.LoadFindings(filepath.Join(root, "known_findings.json"))
+	installSignalCleanup(tmp)
 	bin, err := buildWorker(tmp, false)
 	if err != nil {
 		fmt.Printf("BUILD-FAILED property=%s: worker does not build against %s\n%v\n", prop, repo, err)
@@ -259,6 +267,18 @@ func run(prop, tier string) int {
 	}
 
 	return rc.finish(start)
+}
+
+func (rc *runCtx) unlistedSoFar() int {
+	rc.a.mu.Lock()
+	defer rc.a.mu.Unlock()
+	n := 0
+	for _, v := range rc.a.viols {
+		if fw.MatchKnown(rc.findings, rc.prop, v.Sig) == nil {
+			n++
+		}
+	}
+	return n
 }
 
 func (rc *runCtx) runPhase(ph fw.Phase) {
@@ -321,6 +341,12 @@ func (rc *runCtx) runPhase(ph fw.Phase) {
 		}()
 	}
 	for _, sp := range spans {
+		if rc.unlistedSoFar() >= failFastViolations {
+			rc.a.mu.Lock()
+			rc.a.tags["fail-fast:chunks-not-run"]++
+			rc.a.mu.Unlock()
+			continue
+		}
 		ch <- sp
 	}
 	close(ch)
@@ -343,7 +369,7 @@ func (rc *runCtx) runChunk(ph fw.Phase, lo, hi int, prefix string) int {
 		cmd.Stdout = os.Stdout
 	}
 	env := os.Environ()
-	env = append(env, "VERIF_TMP="+rc.tmp, "VERIF_REPO="+repo, "VERIF_WORKER_BIN="+bin)
+	env = append(env, "VERIF_KNOWN_FILE="+filepath.Join(root, "known_findings.json"), "VERIF_TMP="+rc.tmp, "VERIF_REPO="+repo, "VERIF_WORKER_BIN="+bin)
 	if rc.ankoBin != "" {
 		env = append(env, "VERIF_ANKO_BIN="+rc.ankoBin)
 	}
@@ -363,6 +389,14 @@ func (rc *runCtx) runChunk(ph fw.Phase, lo, hi int, prefix string) int {
 		rc.a.mu.Unlock()
 		return hi
 	}
+	liveMu.Lock()
+	livePids[cmd.Process.Pid] = true
+	liveMu.Unlock()
+	defer func() {
+		liveMu.Lock()
+		delete(livePids, cmd.Process.Pid)
+		liveMu.Unlock()
+	}()
 	if ph.MemMB > 0 && !ph.Race {
 		lim := syscall.Rlimit{Cur: uint64(ph.MemMB) << 20, Max: uint64(ph.MemMB) << 20}
 		prlimit(cmd.Process.Pid, 9 /* RLIMIT_AS */, &lim)
@@ -435,6 +469,26 @@ func (rc *runCtx) runChunk(ph fw.Phase, lo, hi int, prefix string) int {
 	}
 	rc.a.mu.Unlock()
 	return cur.Case + 1
+}
+
+var (
+	liveMu   sync.Mutex
+	livePids = map[int]bool{}
+)
+
+func installSignalCleanup(tmp string) {
+	ch := make(chan os.Signal, 1)
+	signal.Notify(ch, syscall.SIGINT, syscall.SIGTERM, syscall.SIGHUP)
+	go func() {
+		<-ch
+		liveMu.Lock()
+		for pid := range livePids {
+			syscall.Kill(-pid, syscall.SIGKILL)
+		}
+		liveMu.Unlock()
+		os.RemoveAll(tmp)
+		os.Exit(130)
+	}()
 }
 
 func prlimit(pid int, resource int, lim *syscall.Rlimit) {
